@@ -391,6 +391,26 @@ func (in *Interp) intrinsic(name string, fn *ssa.Function, args []Value) []Value
 	real := in.cfg.Floats == "real"
 	T := func(i int) *Term { return args[i].(*Term) }
 	one := func(t *Term) []Value { return []Value{t} }
+	if strings.HasSuffix(name, "._cgo_runtime_gostring") || strings.HasSuffix(name, "._Cfunc_GoString") {
+		// C.GoString on a NUL-terminated byte buffer owned by the harness: concrete bytes only
+		p, _ := args[0].(*PtrV)
+		if p == nil || p.obj == nil || p.sym != nil {
+			panic(unsupported{"C.GoString of a pointer the engine does not track"})
+		}
+		var b []byte
+		for i := p.off; i < len(p.obj.slots); i++ {
+			t, ok := in.readSlot(p.obj, i).(*Term)
+			if !ok || !t.IsConst() {
+				panic(unsupported{"C.GoString of non-constant bytes"})
+			}
+			v := signedOrInt(t).Int64()
+			if v == 0 {
+				break
+			}
+			b = append(b, byte(v))
+		}
+		return []Value{StrV(string(b))}
+	}
 	switch name {
 	case "math.Min":
 		if real {
